@@ -9,6 +9,7 @@ import Kvass.Driver.Hash
 import Kvass.Driver.CfgHash
 import Kvass.Driver.Inject
 import Kvass.Driver.Loop
+import Kvass.Driver.Chain
 
 open Kvass.Driver
 
@@ -34,4 +35,6 @@ def main (args : List String) : IO UInt32 := do
   | ["cfghash"] => loop stdin CfgHash.handle; return 0
   | ["inject"] => loop stdin Inject.handle; return 0
   | ["loop"] => loop stdin Loop.handle; return 0
+  | ["loop-noprune"] => loop stdin Loop.handleNoPrune; return 0
+  | ["chain"] => loop stdin Chain.handle; return 0
   | _ => IO.eprintln "usage: driver <engine>"; return 2
